@@ -10,7 +10,7 @@ from __future__ import annotations
 from typing import Optional
 
 from . import engine, profiles
-from .diffrun import Case, Trace
+from .diffrun import Case, Config, Trace
 
 
 def _spec(c: Case, fam: int, nid: int):
@@ -50,7 +50,7 @@ def oracle_actions(c: Case, tr: Trace) -> Optional[str]:
                 elif nd.kind == 'enable':
                     cA = '1'
                 elif nd.kind == 'action':
-                    cfam = nd.params[0]
+                    cfam = nd.params[0][1] if isinstance(nd.params[0], (tuple, list)) else int(nd.params[0])
             has = spec is not None and spec.kind != 'none' and bodyA == '1'
             if spec is not None and spec.wrap.startswith('cas:'):
                 # change_action_and_state(s): re-enters through the control with the new family (and a new state object)
@@ -134,6 +134,13 @@ def run(tier: str) -> int:
     ps.append(profiles.systematic_profile('ruleacts', lambda k, f: f == 'apply', True, 20, 80, ORACLES, actions_mode='none',
                                           inputs=profiles.inputs_exhaustive(3, 5, cap_q=80, cap_t=500), per_tu=2, configs=cfg,
                                           ctx_names=['top', 'sor-first', 'seq-tail', 'in-at', 'in-disable', 'in-opt', 'in-tcrf']))
+    # the action< A, R... > rule: the family in force below it, and back to the outer one behind it
+    ps.append(profiles.systematic_profile('actrule', lambda k, f: f == 'actrule', True, 9, 40, ORACLES, actions_mode='bool',
+                                          inputs=profiles.inputs_exhaustive(3, 5, cap_q=80, cap_t=500), per_tu=2,
+                                          # + the same with one state handed to parse() that reports being copied (run mode 10): the actions must
+                                          # be called with the caller's state objects, not with copies
+                                          configs=lambda g, root, tier: cfg(g, root, tier) + [Config(root, 1, 'o', 'lf_crlf', 0, 1, 0, 0, 0, 10)],
+                                          ctx_names=['top', 'sor-first', 'seq-tail', 'in-at', 'in-disable']))
     ps.append(profiles.random_profile('wraps', False, True, 16, 90, ORACLES, actions_mode='switch',
                                       inputs=profiles.inputs_exhaustive(4, 6, cap_q=150, cap_t=900), per_tu=2,
                                       configs=profiles.amr_configs(ams=((1, 'r'), (1, 'o'), (0, 'o')), lazies=(0, 1))))
